@@ -25,5 +25,3 @@ finally:
     shutil.rmtree(root, ignore_errors=True)
     if fdir and os.environ.get("KEEP"):
         print("FACTS=" + fdir)
-    elif fdir:
-        shutil.rmtree(fdir, ignore_errors=True)
